@@ -48,6 +48,9 @@ Clauses(t) == <<
     <<"BlockDataOrMetadataAltered", \A j \in 1..NG(t) : j <= Len(t.blocks) => BlockOk(t, j)>>,
     <<"BrothersAltered", \A j \in 1..NG(t) : j <= Len(t.blocks) => BrosOk(t, j)>>,
     <<"BrothersMissing", \A j \in 1..NG(t) : (j <= Len(t.blocks) /\ Finished(t, j)) => BrosComplete(t, j)>>,
+    \* (t.badblk: the first block of an advance request that carries no merge-mining proof / coinbase transaction:
+    \* there is no metadata to hand over for it, so nothing of it may reach the device and the request fails)
+    <<"BlockWithoutCoinbaseRelayed", t.badblk > 0 => (NG(t) < t.badblk /\ t.code \notin {0, 1})>>,
     <<"BrothersSentToAncestorUpdate", ~t.advance => \A j \in 1..NG(t) : ~t.got.blocks[j].asked>>,
     <<"ReplyWithoutErrorCode", t.hascode>>,
     \* (t.lost: the answer to one of the command's exchanges never arrived - the host cannot know what the device
